@@ -551,18 +551,56 @@ fn c06_run(case: &Case, _ctx: &Ctx) -> Outcome {
         }
         crashed.push(c);
         let spec = match t.weighted(&[3, 2, 5]) {
-            0 => Crash { at_us: Some(t.range(0, 3_000_000)), after_frames: None, after_kind: None, kind_written: 0, crashed: false },
-            1 => Crash { at_us: None, after_frames: Some(t.range(0, 120)), after_kind: None, kind_written: 0, crashed: false },
+            0 => Crash { at_us: Some(t.range(0, 3_000_000)), after_frames: None, after_kind: None, kind_written: 0, split: None, split_seen: Vec::new(), crashed: false },
+            1 => Crash { at_us: None, after_frames: Some(t.range(0, 120)), after_kind: None, kind_written: 0, split: None, split_seen: Vec::new(), crashed: false },
             _ => {
                 let kind = *t.pick(&[2u32, 2, 3, 3, 0]);
                 // k: within the first few broadcasts of that kind (n-1 frames each), often mid-broadcast
                 let k = t.range(0, 3 * (n as u64 - 1));
-                Crash { at_us: None, after_frames: None, after_kind: Some((kind, k)), kind_written: 0, crashed: false }
+                Crash { at_us: None, after_frames: None, after_kind: Some((kind, k)), kind_written: 0, split: None, split_seen: Vec::new(), crashed: false }
             }
         };
         plan.push(json!({"node": c + 1, "at_us": spec.at_us, "after_frames": spec.after_frames, "after_kind": spec.after_kind.map(|(k, i)| format!("{} #{}", ["Propose", "Vote", "Timeout", "TC"][k as usize], i))}));
         crash_specs.push((c as u32 + 1, spec));
     }
+    // "split a TC" profile (n = 7): one authority crashes inside a Timeout broadcast that reaches a
+    // single peer, that peer crashes inside the broadcast of the TC it then assembles
+    let split_profile = n == 7 && t.chance(1, 2);
+    if split_profile {
+        crashed.clear();
+        plan.clear();
+        crash_specs.clear();
+        // often the first leader, whose proposal is then merely delayed past the timeout
+        let x2 = if t.chance(2, 3) { w.leader(1) } else { t.below(n) };
+        let x1 = (x2 + 1 + t.below(n - 1)) % n;
+        let others: Vec<u32> = (0..n).filter(|i| *i != x1 && *i != x2).map(|i| i as u32 + 1).collect();
+        let k2 = t.weighted(&[4, 2, 1]) as u64;
+        let mut keep2 = vec![x1 as u32 + 1];
+        if t.chance(1, 4) {
+            keep2.push(*t.pick(&others));
+        }
+        let k1 = t.weighted(&[5, 1]) as u64;
+        let mut keep1: Vec<u32> = Vec::new();
+        let cnt = 1 + t.below(3);
+        for _ in 0..cnt {
+            let c = *t.pick(&others);
+            if !keep1.contains(&c) {
+                keep1.push(c);
+            }
+        }
+        crashed.push(x2);
+        crashed.push(x1);
+        plan.push(json!({"node": x2 + 1, "split": format!("Timeout broadcast #{} reaches only {:?}", k2, keep2)}));
+        plan.push(json!({"node": x1 + 1, "split": format!("TC broadcast #{} reaches only {:?}", k1, keep1)}));
+        crash_specs.push((x2 as u32 + 1, Crash { at_us: None, after_frames: None, after_kind: None, kind_written: 0, split: Some((2, k2, keep2)), split_seen: Vec::new(), crashed: false }));
+        crash_specs.push((x1 as u32 + 1, Crash { at_us: None, after_frames: None, after_kind: None, kind_written: 0, split: Some((3, k1, keep1)), split_seen: Vec::new(), crashed: false }));
+    }
+    // staggered boot: nodes start up to one timeout apart (their first timers then fire apart)
+    let mut boot_ms: Vec<u64> = (0..n).map(|_| if t.chance(1, 2) { 0 } else { t.range(50, tau) }).collect();
+    if !split_profile && t.chance(1, 2) {
+        boot_ms = vec![0; n];
+    }
+    let delay_first_leader = split_profile && t.chance(3, 4);
     let gst_ms = t.range(300, 3_000);
     let pre_extra_ms = match t.weighted(&[1, 2, 2]) {
         0 => 0,
@@ -577,6 +615,7 @@ fn c06_run(case: &Case, _ctx: &Ctx) -> Outcome {
     let _g = sim::ScratchGuard(dir.clone());
     let real: Vec<usize> = (0..n).collect();
     let (w2, dir2, params2, specs2) = (&w, dir.clone(), params.clone(), crash_specs.clone());
+    let boot2 = boot_ms.clone();
     sim::run_sim(rt_seed ^ 0xc06, || async move {
         let ctl: SharedCtl = Rc::new(RefCell::new(NetCtl::new(net_seed)));
         {
@@ -589,14 +628,34 @@ fn c06_run(case: &Case, _ctx: &Ctx) -> Outcome {
                 c.crash.insert(id, spec);
             }
         }
+        if delay_first_leader {
+            // the first leader's proposal is delayed past the timeout (delayed, not lost)
+            let first = w2.leader(1) as u32 + 1;
+            ctl.borrow_mut().hook = Some(Box::new(move |info, payload, src, _dst| {
+                if src == first && cluster::consensus_kind(info, payload) == Some(0) && sim::now_us() < 1_000_000 {
+                    Some(network::simnet::FrameDecision::Deliver(std::time::Duration::from_millis(3 * tau)))
+                } else {
+                    None
+                }
+            }));
+        }
         cluster::install_policy(ctl.clone());
-        cluster::start_real_nodes(w2, &real, &dir2, &params2).await;
+        let mut order: Vec<usize> = real.clone();
+        order.sort_by_key(|i| boot2[*i]);
+        let mut now_ms = 0;
+        for i in order {
+            if boot2[i] > now_ms {
+                tokio::time::sleep(ms(boot2[i] - now_ms)).await;
+                now_ms = boot2[i];
+            }
+            cluster::start_real_nodes(w2, &[i], &dir2, &params2).await;
+        }
         tokio::time::sleep(ms(horizon_ms)).await;
     });
     let log = sim::take_log();
     let panics = sim::panics();
     let mut out = Outcome::default();
-    out.sample = json!({"n": n, "f": f, "crashes": plan, "gst_ms": gst_ms, "pre_gst_extra_delay_ms": pre_extra_ms, "base_delay_ms": base_ms, "jitter_ms": jitter_ms, "window_ms": window_ms, "settle_ms": settle_ms});
+    out.sample = json!({"n": n, "f": f, "boot_ms": boot_ms, "first_leader_proposal_delayed": delay_first_leader, "crashes": plan, "gst_ms": gst_ms, "pre_gst_extra_delay_ms": pre_extra_ms, "base_delay_ms": base_ms, "jitter_ms": jitter_ms, "window_ms": window_ms, "settle_ms": settle_ms});
     out.fingerprint = fnv(format!("{}|{:?}|{}|{}|{}|{}", n, plan, gst_ms, pre_extra_ms, base_ms, net_seed).as_bytes());
     if !panics.is_empty() {
         out.class("skipped:node-panicked");
@@ -632,7 +691,7 @@ fn c06_run(case: &Case, _ctx: &Ctx) -> Outcome {
             .take(60)
             .map(|(_, tt, wr, dst, m, dr)| json!({"t_us": tt, "from": wr, "to": dst, "msg": crate::solo::render_msg(m), "dropped": dr}))
             .collect();
-        json!({"n": n, "f": f, "crashes": plan, "gst_ms": gst_ms, "pre_gst_extra_ms": pre_extra_ms, "window_ms": window_ms, "measured_from_us": t1, "detail": extra,
+        json!({"n": n, "f": f, "boot_ms": boot_ms, "first_leader_proposal_delayed": delay_first_leader, "crashes": plan, "gst_ms": gst_ms, "pre_gst_extra_ms": pre_extra_ms, "window_ms": window_ms, "measured_from_us": t1, "detail": extra,
             "committed_round_per_live_node": live.iter().map(|i| json!({"node": i, "at_t1": max_until(*i, t1), "at_t2": max_until(*i, t2), "at_t3": max_until(*i, t3)})).collect::<Vec<_>>(),
             "last_non_vote_frames_newest_first": tail})
     };
@@ -661,6 +720,9 @@ fn c06_run(case: &Case, _ctx: &Ctx) -> Outcome {
     let tc_committed = commits.values().any(|v| v.iter().any(|(tt, _, b)| *tt >= t1 && b.tc.is_some()));
     if tc_committed {
         out.class("tc-justified-block-committed");
+    }
+    if split_profile {
+        out.class("split-tc-profile");
     }
     out.class(&format!("crashes={}", crashed.len()));
     out.class(&format!("n={}", n));
